@@ -67,8 +67,11 @@ impl RIMT {
         self.checksum.add(sum);
 
         // The header also contains a count of the number of devices,
-        // so the sum needs an additional '1' added to it.
-        self.checksum.add(1);
+        // so the sum follows the little-endian bytes of that count.
+        let old_count = self.devices.len() as u32;
+        let new_count = old_count + 1;
+        self.checksum.delete(old_count.as_bytes());
+        self.checksum.append(new_count.as_bytes());
 
         self.header.checksum = self.checksum.value();
     }
